@@ -87,7 +87,12 @@ func (f *formatValidator) Validate(val interface{}) *Result {
 		result = new(Result)
 	}
 
-	if err := FormatOf(f.Path, f.In, f.Format, val.(string), f.KnownFormats); err != nil {
+	str, ok := val.(string)
+	if !ok { // a string kind that is not a string (e.g. json.Number): not a format matter, the type validators report it
+		return result
+	}
+
+	if err := FormatOf(f.Path, f.In, f.Format, str, f.KnownFormats); err != nil {
 		result.AddErrors(err)
 	}
 
